@@ -429,6 +429,7 @@ def fam_adv(rng):
     # no address reuse here: with reuse the k-th new value may sit at the old address again and the confirming read matches
     p = prog_with_setup(rng, th, strategy=rng.choice(["default", "default", "nofast"]), reuse=rng.choice(["never", "never", "fifo"]), pnull=0.0)
     p["_sched"] = {"kind": "adversary", "victim": 1, "k": rng.choice([1, 1, 1, 2]), "warm": 2 + held}
+    p["step_limit"] = 400000
     return p
 
 
@@ -670,6 +671,28 @@ def sandwich(tier="quick", start_id=0):
             for k3 in range(5, 13):
                 jobs.append({"fam": "sandwich:reclaim-under-writer", "prog": p3,
                              "sched": {"kind": "segs", "segs": [[2, 13], [1, k1], [2, k2], [1, 9999], [3, k3], [2, 9999], [3, 9999]]}})
+    # help collision (C01/C03: one hand-over envelope per transaction): a writer W is stopped before its k-th access to
+    # the reader's bookkeeping while the reader's transaction it looked at is completed by ANOTHER writer V and the
+    # reader starts the next one (same or other container); W resumes on the newer transaction.  Afterwards both
+    # writers help a parked reader again, so that whatever they kept from the first round is used.
+    for c1, c2, cw in ((1, 0, 0), (0, 0, 0), (1, 1, 0), (0, 1, 0)):     # reader's first / second load, W's container
+        cv = c1
+        rd = [{"op": "wait", "t": 0}] + warm
+        for (c, g) in ((c1, 16), (c2, 17), (cw, 18), (cv, 19)):
+            rd += [{"op": "load", "c": c, "g": g}, {"op": "deref_g", "g": g}, {"op": "drop_g", "g": g}]
+        ph = {"threads": [[{"op": "new", "c": 0, "v": new()}, {"op": "new", "c": 1, "v": new()}], rd,
+                          [{"op": "wait", "t": 0}] + warm2 + [{"op": "store", "c": cw, "v": new()}, {"op": "store", "c": cw, "v": new()}],
+                          [{"op": "wait", "t": 0}, {"op": "load", "c": 0, "g": 62}, {"op": "drop_g", "g": 62},
+                           {"op": "store", "c": cv, "v": new()}, {"op": "store", "c": cv, "v": new()}]],
+              "strategy": "nofast", "reuse": "never"}
+        for k in range(1, 13):
+            for v_runs in (True, False):
+                segs = [[1, "st.%d.*.load" % c1, 1], [2, "ctrl.0.*.load", 1], [2, "#%d" % (k - 1), 1]]
+                if v_runs:
+                    segs += [[3, "inv", 4]]                      # V: warm-up and its first store
+                segs += [[1, "st.%d.*.load" % c2, 2 if c1 == c2 else 1], [2, "inv", 1], [1, "st.%d.*.load" % cw, 3 if c1 == c2 == cw else (2 if cw in (c1, c2) else 1)],
+                         [2, "", 1], [1, "st.%d.*.load" % cv, 1], [3, "", 1], [1, "", 1]]
+                jobs.append({"fam": "until:help-collision", "prog": ph, "sched": {"kind": "until", "segs": segs}})
     # generation wrap inside a writer's NESTED load (the writer helps a reader that is mid-fallback): W claims its node
     # first and presets its counter, R is stopped at every step of its load, W stores
     for back in (1, 2):
